@@ -460,15 +460,15 @@ def AllSecure (Q : Request → Verdict → Prop) : List Request → List (Verdic
   | _, _ => False
 
 /-- lifts a per-step lemma about Secure verdicts to whole histories; `P` relates an earlier request
-to a later one, `C` is a condition on single requests -/
+to a later one, `B` is a condition on the answered request, `C` on the earlier ones -/
 theorem allSecure_of_sound (sigValid : SigOracle) (cfg : CacheConfig)
     (serve : CacheEntry → Request → Option Verdict) (Q : Request → Verdict → Prop)
-    (P : Request → Request → Prop) (C : Request → Prop)
+    (P : Request → Request → Prop) (B C : Request → Prop)
     (hstep : ∀ past r v fresh, StepSound sigValid cfg serve past r v fresh → v.proof = .secure →
-      Bounds r → (∀ r' ∈ past, P r' r ∧ C r') → Q r v)
+      B r → (∀ r' ∈ past, P r' r ∧ C r') → Q r v)
     (past hist : List Request)
     (outs : List (Verdict × Bool)) (hs : SoundFrom sigValid cfg serve past hist outs)
-    (hb : ∀ r ∈ hist, Bounds r ∧ C r)
+    (hb : ∀ r ∈ hist, B r ∧ C r)
     (hpast : ∀ r' ∈ past, C r' ∧ ∀ r ∈ hist, P r' r)
     (hpw : hist.Pairwise P) :
     AllSecure Q hist outs := by
@@ -596,7 +596,7 @@ theorem cache_sound (sigValid : SigOracle) (cfg : CacheConfig) (hist : List Requ
     (hb : ∀ r ∈ hist, Bounds r) (hkey : hist.Pairwise KeyFaithful) :
     AllSecure (fun r v => SecureOK sigValid r ∧ TtlOK r v) hist
       (runHistory sigValid cfg [] hist) :=
-  allSecure_of_sound sigValid cfg serve _ KeyFaithful Bounds
+  allSecure_of_sound sigValid cfg serve _ KeyFaithful Bounds Bounds
     (fun past r v fresh hs hsec hb hp => step_secure sigValid cfg past r v fresh hs hsec hb hp)
     [] hist _ (cache_provenanceG sigValid cfg serve hist)
     (fun r hr => ⟨hb r hr, hb r hr⟩) (by simp) hkey
@@ -636,6 +636,21 @@ example :
       [recA 3600 [10, 0, 0, 1]] 1000 = .error .bogus ∧
     verifyRrsetWithDnskey acceptAll key0 .insecure sig0 nameA 1 [recA 3600 [10, 0, 0, 1]] 1000
       = .error .insecure := by
+  decide
+
+/-- **Open finding `rrsig-period-2^31-served-from-cache`: the well-formedness hypothesis of `Bounds`
+is necessary.**  `RrsigValidity::check` never compares Inception with Expiration.  For an RRSIG with
+expiration 1010 and inception 1010 + 2³¹ (a period of exactly 2³¹ s, undefined in serial arithmetic)
+a validation at 1009 is Secure (both comparisons with the clock are defined), and one second later
+the verdict is served from the cache although the clock is no longer inside the window
+(`inception ≤ 1010` is undefined) and a fresh validation says Bogus. -/
+theorem counterexample_period_2_31 :
+    let sigW : Rrsig := { sig0 with input := { sig0.input with inception := 1010 + HALF } }
+    let req : Nat → Request := fun now => ⟨[1], [(key0, .secure)], sigW, nameA, 1, [recA 3600 [10, 0, 0, 1]], now, 0⟩
+    (runHistory acceptAll {} [] [req 1009, req 1010]).map (fun o => (o.1.proof, o.1.adjustedTtl, o.2))
+      = [(.secure, some 1, true), (.secure, some 0, false)] ∧
+    (freshVerdict acceptAll (req 1010)).proof = .bogus ∧
+    ¬ ((1010 + M - (1010 + HALF)) % M < HALF) := by
   decide
 
 /-- an oracle that accepts exactly the signed data of `recs` under `sig0` (what unforgeability gives
